@@ -1,9 +1,1149 @@
-use concordium_smart_contract_engine::v1::trie::{self, low_level::verif_hooks::*, MutableTrie};
-fn main() {
-    let mut loader = trie::Loader::new(Vec::<u8>::new());
+//! C03 / C15 harness: random operation histories over the contract-state trie.
+//!
+//!   c03 hist <seed> <n> <profile>    generate n histories (profile c03|c15), run them on the
+//!                                    implementation and on the in-harness reference (BTreeMap stack +
+//!                                    lock multiset); prints per history
+//!                                       H <id> <ops>      the history (input of the Coq runner)
+//!                                       R <id> <outs>     observations of the implementation
+//!                                       O <id> <json>     verdict of the direct oracle + statistics
+//!   c03 replay                       the same for histories read from stdin ("H <id> <ops>" lines)
+//!   c03 prefix <seed> <n>            histories over `PrefixesMap` alone:  P / R lines
+//!   c03 preplay                      the same for "P <id> <ops>" lines read from stdin
+//!   c03 inst <seed> <n>              histories over `InstanceState` (contract-visible encodings)
+//!   c03 ireplay                      the same for "J <id> <ops>" lines read from stdin
+//!   c03 directed                     fixed directed cases (overflow of the lock count, api quirks)
+//!
+//! An id starting with `a` runs generations through the public `MutableState` API
+//! (`get_inner` / `make_fresh_generation` / `freeze` / `thaw`), `t` drives `MutableTrie` directly
+//! through the H1 hook wrappers.
+use concordium_smart_contract_engine::v1::trie::{
+    low_level::verif_hooks::*, EmptyCollector, EntryId, Loadable, Loader, MutableState,
+    MutableTrie, PersistentState,
+};
+use hlib::{guarded, hex, quiet_panics, unhex, Rng};
+use std::collections::{BTreeMap, VecDeque};
+use std::io::BufRead;
+
+mod inst;
+
+// ------------------------------------------------------------------------------------------- ops
+
+#[derive(Clone, Debug)]
+pub enum Op {
+    Insert(Vec<u8>, Vec<u8>),
+    Get(Vec<u8>),
+    Read(usize),
+    Set(usize, Vec<u8>),
+    Mut(usize, Vec<u8>),
+    Delete(Vec<u8>),
+    DeletePrefix(Vec<u8>),
+    Iter(Vec<u8>),
+    Next(usize),
+    DelIter(usize),
+    NewGen,
+    Normalize(usize),
+    Freeze,
+    Thaw(u8),
+}
+
+pub fn x(b: &[u8]) -> String { format!("x{}", hex(b)) }
+pub fn unx(s: &str) -> Vec<u8> { unhex(&s[1..]) }
+
+impl Op {
+    fn show(&self) -> String {
+        match self {
+            Op::Insert(k, v) => format!("I {} {}", x(k), x(v)),
+            Op::Get(k) => format!("G {}", x(k)),
+            Op::Read(h) => format!("R {}", h),
+            Op::Set(h, v) => format!("S {} {}", h, x(v)),
+            Op::Mut(h, v) => format!("M {} {}", h, x(v)),
+            Op::Delete(k) => format!("D {}", x(k)),
+            Op::DeletePrefix(k) => format!("P {}", x(k)),
+            Op::Iter(k) => format!("T {}", x(k)),
+            Op::Next(i) => format!("N {}", i),
+            Op::DelIter(i) => format!("X {}", i),
+            Op::NewGen => "+".into(),
+            Op::Normalize(r) => format!("- {}", r),
+            Op::Freeze => "F".into(),
+            Op::Thaw(v) => format!("W {}", v),
+        }
+    }
+
+    fn parse(s: &str) -> Op {
+        let t: Vec<&str> = s.split(' ').collect();
+        match t[0] {
+            "I" => Op::Insert(unx(t[1]), unx(t[2])),
+            "G" => Op::Get(unx(t[1])),
+            "R" => Op::Read(t[1].parse().unwrap()),
+            "S" => Op::Set(t[1].parse().unwrap(), unx(t[2])),
+            "M" => Op::Mut(t[1].parse().unwrap(), unx(t[2])),
+            "D" => Op::Delete(unx(t[1])),
+            "P" => Op::DeletePrefix(unx(t[1])),
+            "T" => Op::Iter(unx(t[1])),
+            "N" => Op::Next(t[1].parse().unwrap()),
+            "X" => Op::DelIter(t[1].parse().unwrap()),
+            "+" => Op::NewGen,
+            "-" => Op::Normalize(t[1].parse().unwrap()),
+            "F" => Op::Freeze,
+            "W" => Op::Thaw(t.get(1).map(|v| v.parse().unwrap()).unwrap_or(0)),
+            _ => panic!("bad op {}", s),
+        }
+    }
+
+    fn tag(&self) -> &'static str {
+        match self {
+            Op::Insert(..) => "insert",
+            Op::Get(..) => "get",
+            Op::Read(..) => "read",
+            Op::Set(..) => "set",
+            Op::Mut(..) => "get_mut",
+            Op::Delete(..) => "delete",
+            Op::DeletePrefix(..) => "delete_prefix",
+            Op::Iter(..) => "iter",
+            Op::Next(..) => "next",
+            Op::DelIter(..) => "delete_iter",
+            Op::NewGen => "new_generation",
+            Op::Normalize(..) => "normalize",
+            Op::Freeze => "freeze",
+            Op::Thaw(..) => "thaw",
+        }
+    }
+}
+
+fn optval(v: &Option<Vec<u8>>) -> String {
+    match v {
+        None => "~".into(),
+        Some(v) => hex(v),
+    }
+}
+
+fn dump_str(l: &[(Vec<u8>, Option<Vec<u8>>)]) -> String {
+    format!("{{{}}}", l.iter().map(|(k, v)| format!("{}={}", hex(k), optval(v))).collect::<Vec<_>>().join(","))
+}
+
+// ------------------------------------------------------------------- reference (direct oracle)
+
+/// The reference: a stack of ordered maps from keys to entry ids, a table of entries, and live
+/// iterators that are snapshots of the keys under their prefix.  "Locked" is defined from the
+/// live iterators.  This mirrors the level-A specification of coq/Trie/Locks.v and is written
+/// independently of the implementation.
+#[derive(Clone, Default)]
+struct RGen {
+    map: BTreeMap<Vec<u8>, usize>,
+    ents: Vec<Option<Vec<u8>>>,
+    handles: Vec<usize>,
+    iters: Vec<Option<(Vec<u8>, VecDeque<Vec<u8>>)>>,
+}
+
+impl RGen {
+    fn locked(&self, k: &[u8]) -> bool { self.iters.iter().flatten().any(|(p, _)| k.starts_with(p)) }
+
+    fn locked2(&self, k: &[u8]) -> bool {
+        self.iters.iter().flatten().any(|(p, _)| k.starts_with(p) || p.starts_with(k))
+    }
+
+    fn locks(&self) -> Vec<(Vec<u8>, u32)> {
+        let mut m: BTreeMap<Vec<u8>, u32> = BTreeMap::new();
+        for (p, _) in self.iters.iter().flatten() {
+            *m.entry(p.clone()).or_insert(0) += 1;
+        }
+        m.into_iter().collect()
+    }
+
+    fn ent(&self, e: usize) -> Option<Vec<u8>> { self.ents.get(e).cloned().flatten() }
+
+    fn dump(&self) -> Vec<(Vec<u8>, Option<Vec<u8>>)> {
+        self.map.iter().map(|(k, e)| (k.clone(), self.ent(*e))).collect()
+    }
+}
+
+struct Reference {
+    gens: Vec<RGen>,
+}
+
+impl Reference {
+    fn new() -> Self { Reference { gens: vec![RGen::default()] } }
+
+    fn cur(&mut self) -> &mut RGen { self.gens.last_mut().unwrap() }
+
+    fn step(&mut self, op: &Op) -> String {
+        match op {
+            Op::Insert(k, v) => {
+                let g = self.cur();
+                if g.locked(k) {
+                    return "L".into();
+                }
+                let h = g.handles.len();
+                if let Some(&e) = g.map.get(k) {
+                    g.ents[e] = Some(v.clone());
+                    g.handles.push(e);
+                    format!("h{}:1", h)
+                } else {
+                    let e = g.ents.len();
+                    g.ents.push(Some(v.clone()));
+                    g.map.insert(k.clone(), e);
+                    g.handles.push(e);
+                    format!("h{}:0", h)
+                }
+            }
+            Op::Get(k) => {
+                let g = self.cur();
+                match g.map.get(k).copied() {
+                    None => "-".into(),
+                    Some(e) => {
+                        let h = g.handles.len();
+                        g.handles.push(e);
+                        format!("f{}={}", h, optval(&g.ent(e)))
+                    }
+                }
+            }
+            Op::Read(h) => {
+                let g = self.cur();
+                match g.handles.get(*h).copied() {
+                    None => "x".into(),
+                    Some(e) => format!("={}", optval(&g.ent(e))),
+                }
+            }
+            Op::Set(h, v) => {
+                let g = self.cur();
+                match g.handles.get(*h).copied() {
+                    None => "x".into(),
+                    Some(e) => {
+                        if g.ent(e).is_some() {
+                            g.ents[e] = Some(v.clone());
+                            "1".into()
+                        } else {
+                            "0".into()
+                        }
+                    }
+                }
+            }
+            Op::Mut(h, v) => {
+                let g = self.cur();
+                match g.handles.get(*h).copied() {
+                    None => "x".into(),
+                    Some(e) => {
+                        let old = g.ent(e);
+                        if old.is_some() {
+                            g.ents[e] = Some(v.clone());
+                        }
+                        format!("={}", optval(&old))
+                    }
+                }
+            }
+            Op::Delete(k) => {
+                let g = self.cur();
+                if g.map.is_empty() {
+                    return "0".into();
+                }
+                if g.locked(k) {
+                    return "L".into();
+                }
+                match g.map.remove(k) {
+                    None => "0".into(),
+                    Some(e) => {
+                        let alive = g.ent(e).is_some();
+                        g.ents[e] = None;
+                        if alive { "1".into() } else { "0".into() }
+                    }
+                }
+            }
+            Op::DeletePrefix(k) => {
+                let g = self.cur();
+                if g.map.is_empty() {
+                    return "0".into();
+                }
+                if g.locked2(k) {
+                    return "L".into();
+                }
+                let ks: Vec<Vec<u8>> = g.map.keys().filter(|x| x.starts_with(k)).cloned().collect();
+                if ks.is_empty() {
+                    return "0".into();
+                }
+                for key in ks {
+                    let e = g.map.remove(&key).unwrap();
+                    g.ents[e] = None;
+                }
+                "1".into()
+            }
+            Op::Iter(k) => {
+                let g = self.cur();
+                let ks: VecDeque<Vec<u8>> = g.map.keys().filter(|x| x.starts_with(k)).cloned().collect();
+                if ks.is_empty() {
+                    return "-".into();
+                }
+                let i = g.iters.len();
+                g.iters.push(Some((k.clone(), ks)));
+                format!("i{}", i)
+            }
+            Op::Next(i) => {
+                let g = self.cur();
+                let nk = match g.iters.get_mut(*i) {
+                    Some(Some((_, rem))) => rem.pop_front(),
+                    _ => return "x".into(),
+                };
+                match nk {
+                    None => "-".into(),
+                    Some(k) => match g.map.get(&k).copied() {
+                        Some(e) => {
+                            let h = g.handles.len();
+                            g.handles.push(e);
+                            format!("n{},{}={}", hex(&k), h, optval(&g.ent(e)))
+                        }
+                        None => "REFERENCE-LOST-KEY".into(),
+                    },
+                }
+            }
+            Op::DelIter(i) => {
+                let g = self.cur();
+                match g.iters.get_mut(*i) {
+                    Some(s @ Some(_)) => {
+                        *s = None;
+                        "1".into()
+                    }
+                    _ => "x".into(),
+                }
+            }
+            Op::NewGen => {
+                let g = self.cur().clone();
+                self.gens.push(RGen { map: g.map, ents: g.ents, handles: vec![], iters: vec![] });
+                format!("g{}", self.gens.len())
+            }
+            Op::Normalize(r) => {
+                if r + 1 < self.gens.len() {
+                    self.gens.truncate(r + 1);
+                }
+                format!("g{}", self.gens.len())
+            }
+            Op::Freeze => dump_str(&self.cur().dump()),
+            Op::Thaw(_) => {
+                let g = self.cur().clone();
+                let d = dump_str(&g.dump());
+                self.gens = vec![RGen { map: g.map, ents: g.ents, handles: vec![], iters: vec![] }];
+                d
+            }
+        }
+    }
+}
+
+// ------------------------------------------------------------------------- implementation side
+
+#[derive(Default)]
+struct Tables {
+    handles: Vec<EntryId>,
+    iters: Vec<Option<VerifIterator>>,
+}
+
+enum Backend {
+    Trie(MutableTrie),
+    Api(Vec<MutableState>),
+}
+
+struct Machine {
+    backend: Backend,
+    store: Vec<u8>,
+    tabs: Vec<Tables>,
+    /// persistent states produced so far with the contents they had when produced
+    /// (oracle: a persistent state never changes afterwards)
+    frozen: Vec<(PersistentState, String)>,
+}
+
+fn persistent_dump(ps: &PersistentState, store: &[u8]) -> String {
+    let mut loader = Loader::new(store);
+    let items: Vec<(Vec<u8>, Vec<u8>)> = ps.clone().into_iterator(&mut loader).collect();
+    let mut out: Vec<(Vec<u8>, Option<Vec<u8>>)> = Vec::new();
+    let mut bad = false;
+    for (k, v) in items.iter() {
+        let mut loader = Loader::new(store);
+        let lv = ps.lookup(&mut loader, k);
+        if lv.as_ref() != Some(v) {
+            bad = true;
+        }
+        out.push((k.clone(), Some(v.clone())));
+    }
+    // a few absent keys: extensions and truncations of present keys
+    for (k, _) in items.iter().take(8) {
+        let mut k2 = k.clone();
+        k2.push(0x5a);
+        let mut loader = Loader::new(store);
+        if !items.iter().any(|(kk, _)| kk == &k2) && ps.lookup(&mut loader, &k2).is_some() {
+            bad = true;
+        }
+        if !k.is_empty() {
+            let k3 = k[..k.len() - 1].to_vec();
+            let mut loader = Loader::new(store);
+            if !items.iter().any(|(kk, _)| kk == &k3) && ps.lookup(&mut loader, &k3).is_some() {
+                bad = true;
+            }
+        }
+    }
+    let mut s = dump_str(&out);
+    if bad {
+        s.push_str("!LOOKUP");
+    }
+    s
+}
+
+impl Machine {
+    fn new(api: bool) -> Self {
+        let backend = if api {
+            let mut st = MutableState::initial_state();
+            let mut loader = Loader::new(&[][..]);
+            // touch the state so that `make_fresh_generation` really starts a generation
+            let _ = st.get_inner(&mut loader);
+            Backend::Api(vec![st])
+        } else {
+            Backend::Trie(MutableTrie::empty())
+        };
+        Machine { backend, store: Vec::new(), tabs: vec![Tables::default()], frozen: Vec::new() }
+    }
+
+    fn with_trie<X>(&mut self, f: impl FnOnce(&mut MutableTrie, &mut Loader<&[u8]>, &mut Tables) -> X) -> X {
+        let Machine { backend, store, tabs, .. } = self;
+        let mut loader = Loader::new(&store[..]);
+        let tab = tabs.last_mut().unwrap();
+        match backend {
+            Backend::Trie(t) => f(t, &mut loader, tab),
+            Backend::Api(states) => {
+                let st = states.last_mut().unwrap();
+                let inner = st.get_inner(&mut loader);
+                let mut guard = inner.lock();
+                f(&mut guard, &mut loader, tab)
+            }
+        }
+    }
+
+    fn locks(&mut self) -> Vec<(Vec<u8>, u32)> { self.with_trie(|t, _, _| t.verif_locks()) }
+
+    fn num_gens(&self) -> usize {
+        match &self.backend {
+            Backend::Trie(t) => t.verif_num_generations(),
+            Backend::Api(s) => s.len(),
+        }
+    }
+
+    /// Freeze a copy of the current generation (the machine itself is unchanged).
+    fn freeze_copy(&mut self) -> PersistentState {
+        let Machine { backend, store, .. } = self;
+        let mut loader = Loader::new(&store[..]);
+        let copy: MutableTrie = match backend {
+            Backend::Trie(t) => t.clone(),
+            Backend::Api(states) => {
+                let st = states.last_mut().unwrap();
+                let inner = st.get_inner(&mut loader);
+                let guard = inner.lock();
+                (*guard).clone()
+            }
+        };
+        match copy.freeze(&mut loader, &mut EmptyCollector) {
+            Some(n) => PersistentState::from(n),
+            None => PersistentState::Empty,
+        }
+    }
+
+    fn step(&mut self, op: &Op) -> String {
+        match op {
+            Op::Insert(k, v) => self.with_trie(|t, l, tab| match t.insert(l, k, v.clone()) {
+                Ok((e, existed)) => {
+                    let h = tab.handles.len();
+                    tab.handles.push(e);
+                    format!("h{}:{}", h, existed as u8)
+                }
+                Err(_) => "L".into(),
+            }),
+            Op::Get(k) => self.with_trie(|t, l, tab| match t.get_entry(l, k) {
+                None => "-".into(),
+                Some(e) => {
+                    let h = tab.handles.len();
+                    tab.handles.push(e);
+                    let v = t.with_entry(e, l, |x| x.to_vec());
+                    format!("f{}={}", h, optval(&v))
+                }
+            }),
+            Op::Read(h) => self.with_trie(|t, l, tab| match tab.handles.get(*h).copied() {
+                None => "x".into(),
+                Some(e) => format!("={}", optval(&t.with_entry(e, l, |x| x.to_vec()))),
+            }),
+            Op::Set(h, v) => self.with_trie(|t, _, tab| match tab.handles.get(*h).copied() {
+                None => "x".into(),
+                Some(e) => {
+                    if t.set(e, v.clone()).is_some() { "1".into() } else { "0".into() }
+                }
+            }),
+            Op::Mut(h, v) => self.with_trie(|t, l, tab| match tab.handles.get(*h).copied() {
+                None => "x".into(),
+                Some(e) => match t.verif_get_mut(e, l) {
+                    Some(r) => {
+                        let old = std::mem::replace(r, v.clone());
+                        format!("={}", hex(&old))
+                    }
+                    None => "=~".into(),
+                },
+            }),
+            Op::Delete(k) => self.with_trie(|t, l, _| match t.delete(l, k) {
+                Ok(b) => format!("{}", b as u8),
+                Err(_) => "L".into(),
+            }),
+            Op::DeletePrefix(k) => self.with_trie(|t, l, _| match t.verif_delete_prefix(l, k) {
+                Ok(b) => format!("{}", b as u8),
+                Err(_) => "L".into(),
+            }),
+            Op::Iter(k) => self.with_trie(|t, l, tab| match t.verif_iter(l, k) {
+                Err(_) => "E".into(),
+                Ok(None) => "-".into(),
+                Ok(Some(it)) => {
+                    let i = tab.iters.len();
+                    tab.iters.push(Some(it));
+                    format!("i{}", i)
+                }
+            }),
+            Op::Next(i) => self.with_trie(|t, l, tab| {
+                let Tables { handles, iters } = tab;
+                match iters.get_mut(*i) {
+                    Some(Some(it)) => match t.verif_next(l, it) {
+                        None => "-".into(),
+                        Some(e) => {
+                            let key = it.get_key().to_vec();
+                            let h = handles.len();
+                            handles.push(e);
+                            let v = t.with_entry(e, l, |x| x.to_vec());
+                            format!("n{},{}={}", hex(&key), h, optval(&v))
+                        }
+                    },
+                    _ => "x".into(),
+                }
+            }),
+            Op::DelIter(i) => self.with_trie(|t, _, tab| match tab.iters.get_mut(*i) {
+                Some(slot @ Some(_)) => {
+                    let b = t.verif_delete_iter(slot.as_ref().unwrap());
+                    *slot = None;
+                    format!("{}", b as u8)
+                }
+                _ => "x".into(),
+            }),
+            Op::NewGen => {
+                let Machine { backend, store, tabs, .. } = self;
+                let mut loader = Loader::new(&store[..]);
+                match backend {
+                    Backend::Trie(t) => t.verif_new_generation(),
+                    Backend::Api(states) => {
+                        let s = states.last_mut().unwrap().make_fresh_generation(&mut loader);
+                        states.push(s);
+                    }
+                }
+                tabs.push(Tables::default());
+                format!("g{}", self.num_gens())
+            }
+            Op::Normalize(r) => {
+                let Machine { backend, store, tabs, .. } = self;
+                let mut loader = Loader::new(&store[..]);
+                match backend {
+                    Backend::Trie(t) => t.verif_normalize(*r as u32),
+                    Backend::Api(states) => {
+                        if r + 1 < states.len() {
+                            states.truncate(r + 1);
+                        }
+                        // `get_inner` brings the shared trie back to this generation
+                        let _ = states.last_mut().unwrap().get_inner(&mut loader);
+                    }
+                }
+                if r + 1 < tabs.len() {
+                    tabs.truncate(r + 1);
+                }
+                format!("g{}", self.num_gens())
+            }
+            Op::Freeze => {
+                let ps = self.freeze_copy();
+                let d = persistent_dump(&ps, &self.store);
+                self.frozen.push((ps, d.clone()));
+                d
+            }
+            Op::Thaw(variant) => {
+                // freeze for real (consuming), optionally write to the backing store and reload,
+                // then continue on the thawed state
+                let mut ps = {
+                    let Machine { backend, store, .. } = self;
+                    let mut loader = Loader::new(&store[..]);
+                    match backend {
+                        Backend::Trie(t) => {
+                            let t = std::mem::replace(t, MutableTrie::empty());
+                            match t.freeze(&mut loader, &mut EmptyCollector) {
+                                Some(n) => PersistentState::from(n),
+                                None => PersistentState::Empty,
+                            }
+                        }
+                        Backend::Api(states) => {
+                            states.last_mut().unwrap().freeze(&mut loader, &mut EmptyCollector)
+                        }
+                    }
+                };
+                let d0 = persistent_dump(&ps, &self.store);
+                self.frozen.push((ps.clone(), d0.clone()));
+                match variant % 3 {
+                    1 => {
+                        // store; children become disk references, the root stays in memory
+                        ps.store_update(&mut self.store).expect("store");
+                    }
+                    2 => {
+                        // store and reload from the backing store: everything is on disk
+                        let r = ps.store_update(&mut self.store).expect("store");
+                        let mut loader = Loader::new(&self.store[..]);
+                        ps = PersistentState::load_from_location(&mut loader, r).expect("load");
+                        if variant % 2 == 0 {
+                            ps.cache(&mut loader);
+                        }
+                    }
+                    _ => {}
+                }
+                let d = persistent_dump(&ps, &self.store);
+                let Machine { backend, store, tabs, .. } = self;
+                let mut loader = Loader::new(&store[..]);
+                match backend {
+                    Backend::Trie(t) => *t = ps.clone().into_trie(&mut loader),
+                    Backend::Api(states) => {
+                        let mut st = ps.thaw();
+                        let _ = st.get_inner(&mut loader);
+                        *states = vec![st];
+                    }
+                }
+                *tabs = vec![Tables::default()];
+                if d != d0 { format!("{}!RELOAD", d) } else { d }
+            }
+        }
+    }
+}
+
+// --------------------------------------------------------------------------------- run a history
+
+struct Outcome {
+    outs: Vec<String>,
+    first_bad: i64,
+    exp: String,
+    got: String,
+    locks_ok: bool,
+    persist_ok: bool,
+    panic: Option<String>,
+}
+
+fn run_history(api: bool, ops: &[Op]) -> Outcome {
+    let mut m = Machine::new(api);
+    let mut r = Reference::new();
+    let mut o = Outcome { outs: vec![], first_bad: -1, exp: String::new(), got: String::new(), locks_ok: true, persist_ok: true, panic: None };
+    for (i, op) in ops.iter().enumerate() {
+        let got = match guarded(|| m.step(op)) {
+            Ok(s) => s,
+            Err(e) => {
+                o.panic = Some(e);
+                o.outs.push("PANIC".into());
+                if o.first_bad < 0 {
+                    o.first_bad = i as i64;
+                    o.exp = r.step(op);
+                    o.got = "PANIC".into();
+                }
+                return o;
+            }
+        };
+        let exp = r.step(op);
+        if got != exp && o.first_bad < 0 {
+            o.first_bad = i as i64;
+            o.exp = exp.clone();
+            o.got = got.clone();
+        }
+        // direct oracle on the lock multiset: exactly the prefixes of the live iterators
+        match guarded(|| m.locks()) {
+            Ok(l) => {
+                if l != r.cur().locks() && o.locks_ok {
+                    o.locks_ok = false;
+                    if o.first_bad < 0 {
+                        o.first_bad = i as i64;
+                        o.exp = format!("locks {:?}", r.cur().locks());
+                        o.got = format!("locks {:?}", l);
+                    }
+                }
+            }
+            Err(e) => {
+                o.panic = Some(e);
+                o.outs.push("PANIC".into());
+                return o;
+            }
+        }
+        o.outs.push(got);
+    }
+    // persistent states never change after they were produced
+    let store = m.store.clone();
+    for (ps, d) in m.frozen.iter() {
+        match guarded(|| persistent_dump(ps, &store)) {
+            Ok(d2) => {
+                if &d2 != d {
+                    o.persist_ok = false;
+                    if o.first_bad < 0 {
+                        o.first_bad = ops.len() as i64;
+                        o.exp = d.clone();
+                        o.got = d2;
+                    }
+                }
+            }
+            Err(e) => {
+                o.panic = Some(e);
+                o.persist_ok = false;
+            }
+        }
+    }
+    o
+}
+
+// ------------------------------------------------------------------------------------ generator
+
+pub struct KeyUniverse {
+    pub keys: Vec<Vec<u8>>,
+}
+
+const SPECIAL: [u8; 10] = [0x00, 0xff, 0x10, 0x01, 0x0f, 0xf0, 0x11, 0xab, 0x80, 0x7f];
+
+impl KeyUniverse {
+    /// An adversarial set of keys: sharing long prefixes, prefixes of each other, differing in
+    /// the high or the low nibble of a byte, the empty key, 0x00 / 0xff bytes, stems longer than
+    /// the 63-nibble inline limit.
+    pub fn new(rng: &mut Rng) -> Self {
+        let mut keys: Vec<Vec<u8>> = Vec::new();
+        let nbase = 1 + rng.below(3);
+        for _ in 0..nbase {
+            let blen = match rng.below(10) {
+                0 => 0,
+                1..=5 => 1 + rng.below(3) as usize,
+                6..=7 => 4 + rng.below(6) as usize,
+                8 => 30 + rng.below(6) as usize,
+                _ => 60 + rng.below(10) as usize,
+            };
+            let base: Vec<u8> = (0..blen).map(|_| if rng.chance(2, 3) { *rng.pick(&SPECIAL) } else { rng.next() as u8 }).collect();
+            keys.push(base.clone());
+            let b = if rng.chance(1, 2) { *rng.pick(&SPECIAL) } else { rng.next() as u8 };
+            let nvar = 1 + rng.below(5);
+            for _ in 0..nvar {
+                let mut k = base.clone();
+                match rng.below(8) {
+                    0 => k.push(b),
+                    1 => k.push(b ^ 0x01),
+                    2 => k.push(b ^ 0x10),
+                    3 => {
+                        k.push(b);
+                        k.push(*rng.pick(&SPECIAL));
+                    }
+                    4 => {
+                        k.push(b);
+                        let n = 1 + rng.below(4);
+                        for _ in 0..n {
+                            k.push(*rng.pick(&SPECIAL));
+                        }
+                    }
+                    5 => {
+                        // a proper prefix of the base
+                        let n = rng.below(k.len() as u64 + 1) as usize;
+                        k.truncate(n);
+                    }
+                    6 => {
+                        // differ in the last byte's low / high nibble
+                        if let Some(l) = k.last_mut() {
+                            *l ^= if rng.chance(1, 2) { 0x01 } else { 0x10 };
+                        } else {
+                            k.push(0);
+                        }
+                    }
+                    _ => {
+                        k.push(b ^ 0x11);
+                        k.push(b);
+                    }
+                }
+                keys.push(k);
+            }
+        }
+        if rng.chance(1, 3) {
+            keys.push(vec![]);
+        }
+        keys.sort();
+        keys.dedup();
+        KeyUniverse { keys }
+    }
+
+    pub fn key(&self, rng: &mut Rng) -> Vec<u8> {
+        if rng.chance(9, 10) {
+            rng.pick(&self.keys).clone()
+        } else {
+            let mut k = rng.pick(&self.keys).clone();
+            match rng.below(4) {
+                0 => k.push(rng.next() as u8),
+                1 => {
+                    let n = rng.below(k.len() as u64 + 1) as usize;
+                    k.truncate(n);
+                }
+                2 => {
+                    if let Some(l) = k.last_mut() {
+                        *l = l.wrapping_add(1);
+                    }
+                }
+                _ => k = rng.bytes(rng.clone().below(4) as usize),
+            }
+            k
+        }
+    }
+
+    /// A prefix to iterate over / delete: a key, a proper prefix of a key, or the empty prefix.
+    pub fn prefix(&self, rng: &mut Rng) -> Vec<u8> {
+        let mut k = self.key(rng);
+        match rng.below(6) {
+            0 => k.clear(),
+            1 | 2 => {
+                let n = rng.below(k.len() as u64 + 1) as usize;
+                k.truncate(n);
+            }
+            _ => {}
+        }
+        k
+    }
+}
+
+pub fn value(rng: &mut Rng) -> Vec<u8> {
+    let len = match rng.below(10) {
+        0 => 0,
+        1 | 2 => 1,
+        3 => 64,
+        4 => 65,
+        5 => 300,
+        6 => 63,
+        _ => rng.below(12) as usize,
+    };
+    rng.bytes(len)
+}
+
+fn history_len(rng: &mut Rng, max: u64) -> usize {
+    (match rng.below(10) {
+        0..=3 => 1 + rng.below(20),
+        4..=7 => 20 + rng.below(80),
+        _ => 100 + rng.below(301),
+    })
+    .min(max) as usize
+}
+
+/// Generate a history.  The generator follows the reference state so that handle / iterator
+/// numbers mostly refer to existing ones and rollbacks target existing generations.
+fn gen_history(rng: &mut Rng, profile: &str, maxlen: u64) -> Vec<Op> {
+    let uni = KeyUniverse::new(rng);
+    let n = history_len(rng, maxlen);
+    let mut r = Reference::new();
+    let mut ops = Vec::with_capacity(n);
+    // weights: insert get read set mut delete delprefix iter next deliter newgen normalize freeze thaw
+    let w: [u64; 14] = if profile == "c15" {
+        [16, 5, 5, 4, 4, 12, 7, 14, 16, 6, 3, 3, 1, 1]
+    } else {
+        [24, 10, 6, 5, 5, 14, 5, 5, 8, 2, 5, 5, 3, 3]
+    };
+    let total: u64 = w.iter().sum();
+    // start with a few inserts so that the tree is not trivial
+    let warm = rng.below(6) as usize;
+    for _ in 0..n {
+        let g = r.gens.last().unwrap();
+        let nh = g.handles.len();
+        let ni = g.iters.len();
+        let mut pick = rng.below(total);
+        let mut c = 0;
+        for (i, x) in w.iter().enumerate() {
+            if pick < *x {
+                c = i;
+                break;
+            }
+            pick -= x;
+        }
+        if ops.len() < warm {
+            c = 0;
+        }
+        let idx = |rng: &mut Rng, n: usize| -> usize {
+            if n == 0 || rng.chance(1, 30) { n + rng.below(3) as usize } else if rng.chance(1, 2) { n - 1 - rng.below(n.min(4) as u64) as usize } else { rng.below(n as u64) as usize }
+        };
+        let op = match c {
+            0 => Op::Insert(uni.key(rng), value(rng)),
+            1 => Op::Get(uni.key(rng)),
+            2 => Op::Read(idx(rng, nh)),
+            3 => Op::Set(idx(rng, nh), value(rng)),
+            4 => Op::Mut(idx(rng, nh), value(rng)),
+            5 => Op::Delete(uni.key(rng)),
+            6 => Op::DeletePrefix(uni.prefix(rng)),
+            7 => Op::Iter(uni.prefix(rng)),
+            8 => Op::Next(idx(rng, ni)),
+            9 => Op::DelIter(idx(rng, ni)),
+            10 => Op::NewGen,
+            11 => {
+                let ng = r.gens.len();
+                Op::Normalize(if rng.chance(1, 10) { ng + rng.below(2) as usize } else { rng.below(ng as u64) as usize })
+            }
+            12 => Op::Freeze,
+            _ => Op::Thaw(rng.below(6) as u8),
+        };
+        r.step(&op);
+        ops.push(op);
+    }
+    ops
+}
+
+fn emit(id: &str, ops: &[Op], stats: &mut BTreeMap<String, u64>) -> bool {
+    let api = id.starts_with('a');
+    let o = run_history(api, ops);
+    println!("H {} {}", id, ops.iter().map(|o| o.show()).collect::<Vec<_>>().join(";"));
+    println!("R {} {}", id, o.outs.join(";"));
+    let mut kinds: BTreeMap<&str, u64> = BTreeMap::new();
+    for op in ops {
+        *kinds.entry(op.tag()).or_insert(0) += 1;
+        *stats.entry(format!("op_{}", op.tag())).or_insert(0) += 1;
+    }
+    for out in o.outs.iter() {
+        let k = match out.as_bytes().first() {
+            Some(b'L') => "out_locked",
+            Some(b'x') => "out_skip",
+            Some(b'E') => "out_too_many",
+            Some(b'n') => "out_next_some",
+            _ => "out_other",
+        };
+        *stats.entry(k.into()).or_insert(0) += 1;
+    }
+    let ok = o.first_bad < 0 && o.locks_ok && o.persist_ok && o.panic.is_none();
+    println!(
+        "O {} {}",
+        id,
+        serde_json::json!({"ok": ok, "first_bad": o.first_bad, "exp": o.exp, "got": o.got, "locks_ok": o.locks_ok,
+                           "persist_ok": o.persist_ok, "panic": o.panic, "len": ops.len()})
+    );
+    ok
+}
+
+// -------------------------------------------------------------------------------- prefix map mode
+
+fn run_prefix(ops: &[String]) -> Vec<String> {
+    let mut m = VerifPrefixesMap::new();
+    // reference: multiset
+    let mut r: BTreeMap<Vec<u8>, u64> = BTreeMap::new();
+    let mut outs = Vec::new();
+    for s in ops {
+        let c = s.as_bytes()[0];
+        let arg = &s[1..];
+        let res = guarded(|| match c {
+            b'i' => {
+                let k = unx(arg);
+                let ok = m.insert(&k);
+                let exp = r.get(&k).copied().unwrap_or(0) < u32::MAX as u64;
+                if exp {
+                    *r.entry(k).or_insert(0) += 1;
+                }
+                (if ok { "1".to_string() } else { "E".to_string() }, ok == exp)
+            }
+            b'd' => {
+                let k = unx(arg);
+                let b = m.delete(&k);
+                let exp = r.get(&k).copied().unwrap_or(0) > 0;
+                if exp {
+                    let c = r.get_mut(&k).unwrap();
+                    *c -= 1;
+                    if *c == 0 {
+                        r.remove(&k);
+                    }
+                }
+                (format!("{}", b as u8), b == exp)
+            }
+            b'c' => {
+                let k = unx(arg);
+                let b = m.check_has_no_prefix(&k);
+                let exp = !r.keys().any(|p| k.starts_with(p));
+                (format!("{}", b as u8), b == exp)
+            }
+            b'o' => {
+                let k = unx(arg);
+                let b = m.is_or_has_prefix(&k);
+                let exp = r.keys().any(|p| k.starts_with(p) || p.starts_with(&k));
+                (format!("{}", b as u8), b == exp)
+            }
+            b's' => {
+                let mut it = arg.split(':');
+                let k = unx(it.next().unwrap());
+                let n: u32 = it.next().unwrap().parse().unwrap();
+                let b = m.set_count(&k, n);
+                let exp = r.contains_key(&k) && n > 0;
+                if exp {
+                    r.insert(k, n as u64);
+                }
+                (format!("{}", b as u8), b == exp)
+            }
+            b'u' => {
+                let d = m.dump();
+                let exp: Vec<(Vec<u8>, u32)> = r.iter().map(|(k, c)| (k.clone(), *c as u32)).collect();
+                let okk = d == exp && (m.is_empty() == r.is_empty()) && (!r.is_empty() || m.num_nodes() == 0);
+                (format!("{{{}}}", d.iter().map(|(k, c)| format!("{}:{}", hex(k), c)).collect::<Vec<_>>().join(",")), okk)
+            }
+            _ => panic!("bad prefix op"),
+        });
+        match res {
+            Ok((s, ok)) => outs.push(if ok { s } else { format!("{}!REF", s) }),
+            Err(_) => {
+                outs.push("PANIC".into());
+                break;
+            }
+        }
+    }
+    outs
+}
+
+fn gen_prefix(rng: &mut Rng) -> Vec<String> {
+    let uni = KeyUniverse::new(rng);
+    let cap = if rng.chance(1, 5) { 300 } else { 60 };
+    let n = 1 + rng.below(cap) as usize;
+    let mut ops = Vec::new();
+    let mut live: Vec<Vec<u8>> = Vec::new();
+    for _ in 0..n {
+        let k = if rng.chance(1, 4) { uni.prefix(rng) } else { uni.key(rng) };
+        match rng.below(20) {
+            0..=6 => {
+                live.push(k.clone());
+                ops.push(format!("i{}", x(&k)));
+            }
+            7..=10 => {
+                // mostly delete something that is there
+                let k = if !live.is_empty() && rng.chance(4, 5) { let i = rng.below(live.len() as u64) as usize; live.swap_remove(i) } else { k };
+                ops.push(format!("d{}", x(&k)));
+            }
+            11..=13 => ops.push(format!("c{}", x(&k))),
+            14..=16 => ops.push(format!("o{}", x(&k))),
+            17 => {
+                // drive a count to the overflow boundary
+                let k = if !live.is_empty() { rng.pick(&live).clone() } else { k };
+                let n = *rng.pick(&[u32::MAX, u32::MAX - 1, u32::MAX - 2, 2, 1]);
+                ops.push(format!("s{}:{}", x(&k), n));
+                ops.push(format!("i{}", x(&k)));
+                ops.push(format!("i{}", x(&k)));
+                ops.push("u".into());
+                ops.push(format!("s{}:{}", x(&k), 1 + rng.below(3)));
+            }
+            _ => ops.push("u".into()),
+        }
+    }
+    ops.push("u".into());
+    ops
+}
+
+// ------------------------------------------------------------------------------------------ main
+
+fn directed() {
+    // 1. lock-count overflow at the trie level: the error is reported, nothing changes
+    let mut loader = Loader::new(&[][..]);
     let mut t = MutableTrie::empty();
     t.insert(&mut loader, b"ab", vec![1]).unwrap();
+    t.insert(&mut loader, b"ac", vec![2]).unwrap();
     let it = t.verif_iter(&mut loader, b"a").unwrap().unwrap();
-    println!("{:?} {:?}", t.verif_locks(), it.get_key());
-    let _ = VerifPrefixesMap::new();
+    let ok_set = t.verif_set_lock_count(b"a", u32::MAX);
+    let before = t.verif_locks();
+    let r = t.verif_iter(&mut loader, b"a");
+    let after = t.verif_locks();
+    let refused = r.is_err();
+    let still_locked = t.insert(&mut loader, b"ad", vec![]).is_err();
+    t.verif_set_lock_count(b"a", 1);
+    let released = t.verif_delete_iter(&it);
+    let unlocked = t.insert(&mut loader, b"ad", vec![]).is_ok();
+    println!(
+        "D overflow {}",
+        serde_json::json!({"ok": ok_set && refused && before == after && still_locked && released && unlocked,
+                           "refused": refused, "unchanged": before == after, "still_locked": still_locked,
+                           "released": released, "unlocked": unlocked})
+    );
+    // 2. observation: `make_fresh_generation` on a state that was never touched shares generation 0
+    let mut loader = Loader::new(&[][..]);
+    let mut m0 = MutableState::initial_state();
+    let mut m1 = m0.make_fresh_generation(&mut loader);
+    {
+        let inner = m1.get_inner(&mut loader);
+        inner.lock().insert(&mut loader, b"k", vec![9]).unwrap();
+    }
+    let leaked = {
+        let inner = m0.get_inner(&mut loader);
+        let mut t = inner.lock();
+        t.get_entry(&mut loader, b"k").is_some()
+    };
+    let mut n0 = MutableState::initial_state();
+    let _ = n0.get_inner(&mut loader);
+    let mut n1 = n0.make_fresh_generation(&mut loader);
+    {
+        let inner = n1.get_inner(&mut loader);
+        inner.lock().insert(&mut loader, b"k", vec![9]).unwrap();
+    }
+    let leaked_touched = {
+        let inner = n0.get_inner(&mut loader);
+        let mut t = inner.lock();
+        t.get_entry(&mut loader, b"k").is_some()
+    };
+    println!("D fresh_generation_untouched {}", serde_json::json!({"shares_generation_0": leaked, "leak_after_get_inner": leaked_touched}));
+}
+
+fn main() {
+    quiet_panics();
+    let args: Vec<String> = std::env::args().collect();
+    let mode = args.get(1).map(|s| s.as_str()).unwrap_or("");
+    match mode {
+        "hist" => {
+            let seed: u64 = args[2].parse().unwrap();
+            let n: u64 = args[3].parse().unwrap();
+            let profile = args.get(4).map(|s| s.as_str()).unwrap_or("c03");
+            let maxlen: u64 = args.get(5).map(|s| s.parse().unwrap()).unwrap_or(400);
+            let mut rng = Rng::new(seed ^ if profile == "c15" { 0xC15 } else { 0xC03 });
+            let mut stats: BTreeMap<String, u64> = BTreeMap::new();
+            let mut bad = 0;
+            for i in 0..n {
+                let ops = gen_history(&mut rng, profile, maxlen);
+                let id = format!("{}{}", if i % 4 == 3 { "a" } else { "t" }, i);
+                if !emit(&id, &ops, &mut stats) {
+                    bad += 1;
+                }
+            }
+            stats.insert("histories".into(), n);
+            stats.insert("oracle_failures".into(), bad);
+            println!("S {}", serde_json::to_string(&stats).unwrap());
+        }
+        "replay" => {
+            let mut stats = BTreeMap::new();
+            for line in std::io::stdin().lock().lines() {
+                let line = line.unwrap();
+                if let Some(rest) = line.strip_prefix("H ") {
+                    let (id, body) = rest.split_once(' ').unwrap_or((rest, ""));
+                    let ops: Vec<Op> = body.split(';').filter(|s| !s.is_empty()).map(Op::parse).collect();
+                    emit(id, &ops, &mut stats);
+                }
+            }
+        }
+        "prefix" => {
+            let seed: u64 = args[2].parse().unwrap();
+            let n: u64 = args[3].parse().unwrap();
+            let mut rng = Rng::new(seed ^ 0x9f);
+            for i in 0..n {
+                let ops = gen_prefix(&mut rng);
+                println!("P {} {}", i, ops.join(";"));
+                println!("R {} {}", i, run_prefix(&ops).join(";"));
+            }
+        }
+        "preplay" => {
+            for line in std::io::stdin().lock().lines() {
+                let line = line.unwrap();
+                if let Some(rest) = line.strip_prefix("P ") {
+                    let (id, body) = rest.split_once(' ').unwrap_or((rest, ""));
+                    let ops: Vec<String> = body.split(';').filter(|s| !s.is_empty()).map(|s| s.to_string()).collect();
+                    println!("P {} {}", id, ops.join(";"));
+                    println!("R {} {}", id, run_prefix(&ops).join(";"));
+                }
+            }
+        }
+        "inst" => {
+            let seed: u64 = args[2].parse().unwrap();
+            let n: u64 = args[3].parse().unwrap();
+            inst::generate(seed, n);
+        }
+        "ireplay" => inst::replay(),
+        "directed" => directed(),
+        _ => {
+            eprintln!("usage: c03 hist|replay|prefix|preplay|inst|ireplay|directed ...");
+            std::process::exit(2);
+        }
+    }
 }
